@@ -76,6 +76,31 @@ func (e *Engine) intrinsic(fn *ssa.Function, name string, args []Value, st *Stat
 			panic(unsupported("%s on a value that is not the S1 null value", name))
 		}
 		return TrueT, st, true
+	case "math.Abs":
+		t := args[0].(*Term)
+		if t.IsConst {
+			v := fpVal(t)
+			if v < 0 {
+				v = -v
+			}
+			return FPC(t.W, v), st, true
+		}
+		return mk(KFP, t.W, "fp.abs", t), st, true
+	case "math.IsNaN":
+		t := args[0].(*Term)
+		return mk(KBool, 0, "fp.isNaN", t), st, true
+	case "math.Float64bits", "math.Float32bits":
+		t := args[0].(*Term)
+		if t.IsConst {
+			return BVC(t.W, t.BV), st, true
+		}
+		// an FP term built from a bit-vector draw gives its bits back; otherwise z3's fp.to_ieee_bv
+		if strings.HasPrefix(t.Op, "(_ to_fp") && len(t.Args) == 1 && t.Args[0].K == KBV {
+			return t.Args[0], st, true
+		}
+		return mk(KBV, t.W, "fp.to_ieee_bv", t), st, true
+	case "math.Float64frombits", "math.Float32frombits":
+		return FPFromBV(args[0].(*Term)), st, true
 	case "fmt.Sprintf":
 		return e.sprintf(args[0], args[1], st), st, true
 	case "fmt.Errorf":
